@@ -19,6 +19,10 @@ pub enum Dev {
     Partition,
     /// delivered now and once more k ticks later (a late duplicate)
     DupHold(i64),
+    /// this datagram and everything else travelling the same way (same sender, same receiver) is lost for k seconds
+    OneWay(i64),
+    /// (decision point ignored) every datagram handed over in second t of the run is delayed by k seconds
+    HoldAt(i64, i64),
 }
 
 #[derive(Serialize, Deserialize, Clone, Debug)]
@@ -31,6 +35,11 @@ pub struct DevCase {
     /// optional outage of the whole network: (start second, length in seconds)
     #[serde(default)]
     pub outage: Option<(i64, i64)>,
+    /// "" = the dialling side keeps the address as a configured peer (re-dialled for ever); "unconfigured" = it dials once, as
+    /// for an address learned from a peer list (afterwards only timeouts make anybody dial again); "unconfigured_t60" = same, and
+    /// the dialled node is configured with a peer timeout of 60 s (shorter than a handshake's retry budget of 120 s)
+    #[serde(default)]
+    pub variant: String,
 }
 
 pub const PREFIX: usize = 14;
@@ -48,10 +57,14 @@ pub fn run_dev(c: &DevCase) -> CaseResult {
     for i in 0..n {
         let mut cfg = base_config(Mode::Router, Type::Tun, 0, &[0]);
         cfg.claims = vec![format!("10.{}.0.0/16", i)];
+        if c.variant == "unconfigured_t60" && i == 1 {
+            cfg.peer_timeout = 60;
+        }
         net.add_node(&cfg, false);
     }
     let a = net.addrs.clone();
     match c.dial.as_str() {
+        "a" if c.variant.starts_with("unconfigured") => net.connect(0, a[1]),
         "a" => net.configure_peer(0, a[1]),
         "b" => net.configure_peer(1, a[0]),
         "both" => {
@@ -66,7 +79,9 @@ pub fn run_dev(c: &DevCase) -> CaseResult {
     let mut point = 0usize;
     let mut held: Vec<(i64, Wire)> = vec![];
     let mut partition_until = 0i64;
+    let mut one_way: Vec<(std::net::SocketAddr, std::net::SocketAddr, i64)> = vec![];
     let mut last_effect = net.now;
+    let hold_at: Vec<(i64, i64)> = c.devs.iter().filter_map(|d| if let Dev::HoldAt(t, k) = d.1 { Some((t, k)) } else { None }).collect();
     let mut pump = |net: &mut Net<Packet>, point: &mut usize, held: &mut Vec<(i64, Wire)>, partition_until: &mut i64, last_effect: &mut i64| -> Result<(), Fail> {
         let now = net.now;
         if let Some((start, len)) = c.outage {
@@ -95,6 +110,14 @@ pub fn run_dev(c: &DevCase) -> CaseResult {
             if now < *partition_until {
                 continue;
             }
+            if one_way.iter().any(|(f, t, until)| *f == w.from && *t == w.to && now < *until) {
+                continue;
+            }
+            if let Some((_, k)) = hold_at.iter().find(|(t, _)| START_TIME + *t == now) {
+                held.push((now + k, w));
+                *last_effect = (*last_effect).max(now + k);
+                continue;
+            }
             let dev = if p < PREFIX { c.devs.iter().find(|d| d.0 == p).map(|d| d.1.clone()) } else { None };
             match dev {
                 Some(Dev::Drop) => {
@@ -117,6 +140,13 @@ pub fn run_dev(c: &DevCase) -> CaseResult {
                     held.push((now + k, w.clone()));
                     net.hand_over(w);
                     *last_effect = now + k;
+                }
+                Some(Dev::OneWay(k)) => {
+                    one_way.push((w.from, w.to, now + k));
+                    *last_effect = (*last_effect).max(now + k);
+                }
+                Some(Dev::HoldAt(_, _)) => {
+                    net.hand_over(w);
                 }
                 None => {
                     net.hand_over(w);
@@ -142,14 +172,17 @@ pub fn run_dev(c: &DevCase) -> CaseResult {
     // run until every deviation has taken effect, then the reliable phase: peer timeout + retry horizon + margin
     let mut t = 0;
     let mut reliable_left: Option<i64> = None;
+    let mut ever_connected = false;
     loop {
         net.tick();
         TICKS.fetch_add(1, std::sync::atomic::Ordering::Relaxed);
         pump(&mut net, &mut point, &mut held, &mut partition_until, &mut last_effect)?;
         no_self(&net)?;
+        ever_connected |= (0..n).any(|i| !net.nodes[i].verif_peers().is_empty());
         t += 1;
         let outage_pending = c.outage.map(|(start, len)| net.now - START_TIME < start + len).unwrap_or(false);
-        let pending_devs = (c.devs.iter().any(|d| d.0 >= point && d.0 < PREFIX) && t < 40) || outage_pending;
+        let hold_pending = c.devs.iter().any(|d| if let Dev::HoldAt(at, _) = d.1 { net.now - START_TIME <= at } else { false });
+        let pending_devs = (c.devs.iter().any(|d| d.0 >= point && d.0 < PREFIX && !matches!(d.1, Dev::HoldAt(_, _))) && t < 40) || outage_pending || hold_pending;
         if reliable_left.is_none() && !pending_devs && held.is_empty() && net.now >= partition_until && net.now >= last_effect {
             reliable_left = Some(300 + 120 + 10);
         }
@@ -170,10 +203,15 @@ pub fn run_dev(c: &DevCase) -> CaseResult {
             return Err(Fail::new("harness", "execution did not reach its reliable phase"));
         }
     }
+    if c.variant.starts_with("unconfigured") && !ever_connected {
+        // a single dial that never got an answer leaves nothing behind that could dial again: nothing to demand
+        return Ok(0);
+    }
     if !net.fully_meshed() {
         let missing: Vec<(usize, usize)> = (0..n).flat_map(|i| (0..n).map(move |j| (i, j))).filter(|(i, j)| i != j && !net.connected(*i, *j)).collect();
         return Err(Fail::new("no_recovery", format!("after the reliable phase (peer timeout + retry horizon) the pairs {:?} are not connected; deviations {:?}", missing, c.devs))
             .with("deviations", c.devs.len() as u64)
+            .with("variant", c.variant.clone())
             .with("dial", c.dial.clone()));
     }
     // payload in both directions
@@ -201,11 +239,11 @@ pub fn cases(tier: Tier) -> Vec<DevCase> {
     let dials: &[&str] = tier.pick(&["a", "both"][..], &["a", "b", "both", "three"][..]);
     for dial in dials {
         for reverse_salts in [false, true] {
-            v.push(DevCase { dial: dial.to_string(), reverse_salts, devs: vec![], outage: None });
+            v.push(DevCase { dial: dial.to_string(), reverse_salts, devs: vec![], outage: None, variant: String::new() });
             let points = if *dial == "three" { PREFIX } else { 10 };
             for p in 0..points {
                 for d in menu() {
-                    v.push(DevCase { dial: dial.to_string(), reverse_salts, devs: vec![(p, d)], outage: None });
+                    v.push(DevCase { dial: dial.to_string(), reverse_salts, devs: vec![(p, d)], outage: None, variant: String::new() });
                 }
             }
             // late duplicates (a copy arrives after linger end / retry budget) alone and followed by an outage longer than the
@@ -214,14 +252,35 @@ pub fn cases(tier: Tier) -> Vec<DevCase> {
                 for p in 0..6 {
                     for k in [61i64, 70, 121, 130] {
                         for outage in [None, Some((200i64, 320i64)), Some((260, 430))] {
-                            v.push(DevCase { dial: dial.to_string(), reverse_salts, devs: vec![(p, Dev::DupHold(k))], outage });
+                            v.push(DevCase { dial: dial.to_string(), reverse_salts, devs: vec![(p, Dev::DupHold(k))], outage, variant: String::new() });
                         }
                     }
                     for d in [Dev::Drop, Dev::Hold(61), Dev::Hold(130)] {
-                        v.push(DevCase { dial: dial.to_string(), reverse_salts, devs: vec![(p, d)], outage: Some((150, 320)) });
+                        v.push(DevCase { dial: dial.to_string(), reverse_salts, devs: vec![(p, d)], outage: Some((150, 320)), variant: String::new() });
                     }
                 }
-                v.push(DevCase { dial: dial.to_string(), reverse_salts, devs: vec![], outage: Some((30, 320)) });
+                v.push(DevCase { dial: dial.to_string(), reverse_salts, devs: vec![], outage: Some((30, 320)), variant: String::new() });
+            }
+            // a dial that is made once (an address learned from a peer list): afterwards only timeouts make anybody dial again.
+            // One-way loss from a given datagram on, alone and combined with a late delay of everything sent in one second
+            if *dial == "a" {
+                for variant in ["unconfigured", "unconfigured_t60"] {
+                    v.push(DevCase { dial: dial.to_string(), reverse_salts, devs: vec![], outage: None, variant: variant.to_string() });
+                    for p in 0..8 {
+                        for d in [Dev::Drop, Dev::Hold(61), Dev::Hold(130), Dev::Partition, Dev::OneWay(62), Dev::OneWay(125), Dev::OneWay(200)] {
+                            v.push(DevCase { dial: dial.to_string(), reverse_salts, devs: vec![(p, d.clone())], outage: None, variant: variant.to_string() });
+                        }
+                    }
+                    for p in 0..tier.pick(4, 8) {
+                        for ow in [62i64, 125] {
+                            for at in [90i64, 100, 110, 118, 119, 120, 121] {
+                                for k in [70i64, 85] {
+                                    v.push(DevCase { dial: dial.to_string(), reverse_salts, devs: vec![(p, Dev::OneWay(ow)), (99, Dev::HoldAt(at, k))], outage: None, variant: variant.to_string() });
+                                }
+                            }
+                        }
+                    }
+                }
             }
             // two deviations
             let pts2 = tier.pick(6, points);
@@ -233,7 +292,7 @@ pub fn cases(tier: Tier) -> Vec<DevCase> {
                 for q in (p + 1)..pts2 {
                     for d1 in &m2 {
                         for d2 in &m2 {
-                            v.push(DevCase { dial: dial.to_string(), reverse_salts, devs: vec![(p, d1.clone()), (q, d2.clone())], outage: None });
+                            v.push(DevCase { dial: dial.to_string(), reverse_salts, devs: vec![(p, d1.clone()), (q, d2.clone())], outage: None, variant: String::new() });
                         }
                     }
                 }
